@@ -331,3 +331,73 @@ pub fn cold_upload(client_port: u16, hs: Hs, n: u32, tag: u64, delay_ms: u16) ->
     }
     Ok(())
 }
+
+/// The target answers `n_down` bytes and half-closes (shutdown of its write side, it keeps reading) while the
+/// application is still uploading: "when the target closes after answering, the application receives the complete
+/// answer followed by end-of-stream" - also when its own upload is still in flight.
+pub fn answer_during_upload(client_port: u16, hs: Hs, n_down: u32, tag: u64) -> Result<(), FlowFail> {
+    use std::io::Write;
+    use std::sync::atomic::{AtomicBool, Ordering};
+    let fl = OpenFlow::open(client_port, hs, 200, tag)?;
+    let OpenFlow { app, mut tgt, app_rx, tgt_rx, listener: _listener, tag_a, app_sent, .. } = fl;
+    // target content is not verified on this path (the uploader does not track what got through)
+    drop(tgt_rx);
+    let stop = std::sync::Arc::new(AtomicBool::new(false));
+    let stop2 = stop.clone();
+    let mut up = app.try_clone().map_err(|e| soft("harness", e.to_string()))?;
+    up.set_write_timeout(Some(Duration::from_millis(200))).ok();
+    let uploader = std::thread::spawn(move || {
+        let mut off = app_sent;
+        while !stop2.load(Ordering::Relaxed) {
+            let b = crate::gen::keystream(tag_a, off, 16384);
+            match up.write(&b) {
+                Ok(n) => off += n,
+                Err(e) if e.kind() == std::io::ErrorKind::WouldBlock || e.kind() == std::io::ErrorKind::TimedOut => {}
+                Err(_) => break,
+            }
+            std::thread::sleep(Duration::from_millis(1));
+        }
+    });
+    // the target drains what it is sent, answers, and half-closes
+    let mut drain = tgt.try_clone().map_err(|e| soft("harness", e.to_string()))?;
+    drain.set_read_timeout(Some(Duration::from_millis(100))).ok();
+    let stop3 = stop.clone();
+    let drainer = std::thread::spawn(move || {
+        use std::io::Read;
+        let mut buf = vec![0u8; 65536];
+        while !stop3.load(Ordering::Relaxed) {
+            match drain.read(&mut buf) {
+                Ok(0) => break,
+                Ok(_) => {}
+                Err(e) if e.kind() == std::io::ErrorKind::WouldBlock || e.kind() == std::io::ErrorKind::TimedOut => {}
+                Err(_) => break,
+            }
+        }
+    });
+    let tag_t = tag * 2 + 2;
+    let r = net::write_ks(&mut tgt, tag_t, 0, n_down as usize);
+    let _ = tgt.shutdown(Shutdown::Write);
+    let res = (|| {
+        r.map_err(|e| soft("target-write", format!("target write of {} bytes: {}", n_down, e)))?;
+        let (a, _) = app_rx.wait(wait(), |r| r.eof || r.err.is_some());
+        if let Some(b) = a.bad_at {
+            return Err(hard("app-wrong-byte", format!("byte {} of the answer differs from what the target wrote", b)));
+        }
+        if a.count < n_down as usize && (a.eof || a.err.is_some()) {
+            return Err(hard(
+                "answer-truncated-during-upload",
+                format!("target wrote {} bytes and half-closed while the application was still uploading; the application got {} bytes and then {}", n_down, a.count, if a.eof { "end-of-stream".to_string() } else { format!("error {:?}", a.err) }),
+            ));
+        }
+        if !a.eof && a.err.is_none() {
+            return Err(soft("no-eof-at-app", format!("target wrote {} bytes and half-closed; application has {} bytes and no end-of-stream after {:?}", n_down, a.count, wait())));
+        }
+        Ok(())
+    })();
+    stop.store(true, Ordering::Relaxed);
+    let _ = app.shutdown(Shutdown::Both);
+    let _ = tgt.shutdown(Shutdown::Both);
+    let _ = uploader.join();
+    let _ = drainer.join();
+    res
+}
